@@ -124,7 +124,7 @@ pub fn check(c: &CfgCase) -> CaseReport {
         let cfg = Cfg { base: c.base as u32, ppm: c.ppm as u32, policy_delta: c.policy_delta as u16, cltv_delta: c.cltv_delta as u16, mpp_timeout_s: c.mpp as u64, allow_self: !c.no_self };
         let amount = 1_000_000u64;
         let need = needed_total(&cfg, amount);
-        let mk = |i: u8, hints: Hints| PaymentSpec { preimage: 0x10 + i, invoice_amount: Some(amount), tlv_amount: amount, hints, explicit_payee: false, recipient_ok: false, drain_parts: 0 };
+        let mk = |i: u8, hints: Hints| PaymentSpec { preimage_hi: 0, preimage: 0x10 + i, invoice_amount: Some(amount), tlv_amount: amount, hints, explicit_payee: false, recipient_ok: false, drain_parts: 0 };
         let payments = vec![mk(0, Hints::None), mk(1, Hints::None), mk(2, Hints::None), mk(3, Hints::None), mk(4, Hints::None), mk(5, Hints::OursLast)];
         let rel_ok = cfg.policy_delta as i64 + 5;
         let pd = cfg.policy_delta as u32;
